@@ -9,8 +9,8 @@ import subprocess
 import vlib
 from vlib import (JVH, NCPU, SPEC, ToolError, build_harness, instantiate, log, read_lines, scratch, tlc_gen, tlc_mc)
 
-# the `bt` profile of the harness: 179-byte keys, 1-byte values, 1 KiB pages
-SIZES = dict(PageSize=1024, LeafElem=32 + 179 + 1, BranchElem=24 + 179)
+# the `bt` profile of the harness: 179-byte keys, 16-byte values (= a nested bucket's entry), 1 KiB pages
+SIZES = dict(PageSize=1024, LeafElem=32 + 179 + 16, BranchElem=24 + 179)
 
 
 def seed_inc(n):
@@ -23,6 +23,11 @@ def seed_dec(n):
 
 def seed_bulk(n):
     return [[("put", i) for i in range(1, n + 1)]]
+
+
+def seed_nested(n, buckets):
+    """keys 1..n one per transaction, those in `buckets` as nested buckets"""
+    return [[("mkb" if i in buckets else "put", i)] for i in range(1, n + 1)]
 
 
 def seed_sparse(n, drop):
